@@ -310,6 +310,9 @@ def parse_operand(s):
         return Copy(parse_place(s[5:]), move=True)
     if s.startswith("const "):
         return Const(s[6:].strip())
+    # a function item used as a value, e.g. `core::f64::<impl f64>::total_cmp` passed where a closure is expected
+    if re.match(r"^[A-Za-z_<][\w:<>, '&\[\];{}@#./()-]*$", s) and "::" in s and not s.startswith(("copy", "move")):
+        return Const("fn-item " + s)
     raise ParseError("bad operand: " + s[:80])
 
 
@@ -563,9 +566,11 @@ def parse_mir(text):
     i, n = 0, len(lines)
     while i < n:
         line = lines[i]
-        m = re.match(r"^const (\S+): (\S+) = const (.*);\s*$", line)
-        if m:
+        m = re.match(r"^const (.+): ([^=:]+?) = const (.*);\s*$", line)
+        if m and "promoted[" not in m.group(1):
+            # free and associated constants: keyed by their last path segment (and by the full printed name)
             consts[m.group(1)] = m.group(3).strip()
+            consts[m.group(1).split("::")[-1]] = m.group(3).strip()
             i += 1
             continue
         cm = re.match(r"^const (.*::promoted\[\d+\]): (.*) = \{\s*$", line)
